@@ -27,11 +27,13 @@ pub fn build(mut t: Tape) -> Built {
     let addr = SocketAddr::new(SERVER_IP, port.unwrap_or(default_port));
     // names containing spaces form a separately signed sub-domain
     let spaces = t.draw(CFG, 4) == 0;
-    let mut st = QuakeState::generate(&mut t, version, 64, spaces);
+    // one case in four: a long player list, the reply datagram is far above 1024 bytes and the MTU
+    let big = t.draw(CFG, 4) == 0;
+    let mut st = QuakeState::generate(&mut t, version, if big { 200 } else { 64 }, spaces);
     if t.draw(CFG, 4) == 0 {
         st.add_both_spellings(&mut t);
     }
-    st.fit();
+    st.fit_to(if big { 16_000 } else { 1400 });
     let family = format!("quake{version}{}", if spaces && st.players.iter().any(|p| p.name.contains(' ')) { "-names-with-spaces" } else { "" });
     let expected = st.expected();
     let detail = json!({"version": version, "players": st.players.len(), "extras": st.extras.len(), "reply_len": st.encode().len(), "alt_keys": [st.host_key_alt, st.map_key_alt, st.max_key_alt]});
